@@ -365,6 +365,7 @@ type source struct {
 	wt      *wtSrc
 	jsonOf  interface{} // for struct/slice kinds: the value whose JSON form is expected
 	byteSrc bool        // the bytes written must be exactly the content
+	raw     []byte      // for []byte-kind sources: the very slice handed to Produce
 }
 
 func mkSource(kind string, content []byte, o Script) (s source, ok bool) {
@@ -394,11 +395,13 @@ func mkSource(kind string, content []byte, o Script) (s source, ok bool) {
 	case "stringer":
 		s.v = strSrc{string(content)}
 	case "[]byte":
-		s.v = append([]byte{}, content...)
+		s.raw = append([]byte{}, content...)
+		s.v = s.raw
 	case "string":
 		s.v = string(content)
 	case "named-bytes":
-		s.v = namedBytes(append([]byte{}, content...))
+		s.raw = append([]byte{}, content...)
+		s.v = namedBytes(s.raw)
 	case "named-string":
 		s.v = namedString(content)
 	case "*string":
@@ -406,13 +409,13 @@ func mkSource(kind string, content []byte, o Script) (s source, ok bool) {
 		s.v = &x
 	case "*[]byte":
 		x := append([]byte{}, content...)
-		s.v = &x
+		s.v, s.raw = &x, x
 	case "*named-string":
 		x := namedString(content)
 		s.v = &x
 	case "*named-bytes":
 		x := namedBytes(append([]byte{}, content...))
-		s.v = &x
+		s.v, s.raw = &x, x
 	case "struct":
 		x := plainStruct{A: string(content), B: len(content)}
 		s.v, s.jsonOf, s.byteSrc = x, x, false
